@@ -378,8 +378,152 @@ _INHERENT_IMPL = __import__("re").compile(r"(?:[A-Za-z_][A-Za-z_0-9]*::)+<impl (
 _FOREIGN_ROOTS = ("core", "alloc", "std", "serde", "serde_core", "arbitrary", "castaway", "itoa", "ryu")
 
 
+def _load_sigs():
+    global _SIGS, _ANCHOR_NAMES
+    if _SIGS is None:
+        import os
+        d = os.path.dirname(os.path.dirname(os.path.abspath(__file__)))
+        try:
+            _SIGS = json.load(open(os.path.join(d, "anchor_sigs.json")))
+            _ANCHOR_NAMES = set(json.load(open(os.path.join(d, "anchors.json"))))
+        except OSError:
+            _SIGS, _ANCHOR_NAMES = {}, set()
+    return _SIGS, _ANCHOR_NAMES
+
+
+_SIGS = None
+_ANCHOR_NAMES = None
+
+
+def _needs_resolution(txt):
+    """cheap pre-test: is any reference item absent from the facts?"""
+    sigs, _ = _load_sigs()
+    for k in sigs:
+        if k.startswith("@"):
+            for p in sigs[k]:
+                if ('"path": "%s"' % p) not in txt:
+                    return True
+        elif not sigs[k]["exported"] and ('"path": "%s"' % k) not in txt:
+            return True
+    return False
+
+
+def _unique_best(cands):
+    if not cands:
+        return None
+    cands.sort(reverse=True)
+    if len(cands) == 1:
+        return cands[0][1]
+    if cands[0][0] > cands[1][0] and cands[0][0] >= 0.3:
+        return cands[0][1]
+    return None
+
+
+def _split(p):
+    return (p.rsplit("::", 1) + [""])[:2] if "::" in p else ("", p)
+
+
+def _adt_shape(a, own):
+    return [a["kind"], [[f["ty"].replace(own, "Self") for f in v["fields"]] for v in a["variants"]]]
+
+
+def _adt_aliases(j, sigs):
+    ref = sigs.get("@adts", {})
+    have = {a["path"]: a for a in j["adts"]}
+    missing = [p for p in ref if p not in have]
+    new = [p for p in have if p not in ref]
+    out = {}
+    for m in sorted(missing):
+        cands = []
+        for p in new:
+            a = have[p]
+            if p in out or (a.get("vis") == "pub") != ref[m]["pub"] or _adt_shape(a, p) != ref[m]["shape"]:
+                continue
+            # `pub` items (possibly re-exported API) can move but not change their name
+            if _split(p)[1] != _split(m)[1] and (ref[m]["pub"] or _split(p)[0] != _split(m)[0]):
+                continue
+            vn = [v["name"] for v in a["variants"]]
+            same = 1.0 if (a["kind"] != "enum" or vn == ref[m]["variants"]) else 0.0
+            cands.append((same, p))
+        b = _unique_best(cands)
+        if b:
+            out[b] = m
+    return out
+
+
+def _const_aliases(j, sigs):
+    ref = sigs.get("@consts", {})
+    have = {c["path"]: c for c in j["consts"]}
+    val = lambda c: [c.get("ty"), c.get("scalar"), c.get("deref_bytes"), c.get("bytes")]
+    missing = [p for p in ref if p not in have]
+    new = [p for p in have if p not in ref and not p.endswith("_")]
+    out = {}
+    for m in sorted(missing):
+        want = ref[m]["val"].get(str(j["config"]["ptr_bits"]))
+        cands = [(1.0, p) for p in new if p not in out and want is not None and val(have[p]) == want and (_split(p)[0] == _split(m)[0] or _split(p)[1] == _split(m)[1])]
+        b = _unique_best(cands)
+        if b:
+            out[b] = m
+    return out
+
+
+def _fn_aliases(j, sigs, anchor_names):
+    have = {b["path"] for b in j["bodies"]}
+    fns = {f["path"]: f for f in j["fns"]}
+    kinds = {b["path"]: b["kind"] for b in j["bodies"]}
+    missing = [a for a in sigs if not a.startswith("@") and a not in have and not sigs[a]["exported"]]
+    new = [p for p in have if p not in anchor_names and kinds.get(p) != "closure" and p in fns]
+    if not missing or not new:
+        return {}
+    callees = {}
+    for b in j["bodies"]:
+        if b["path"] in new:
+            callees[b["path"]] = {callee_name(blk["term"]) for blk in b["blocks"] if blk["term"]["k"] == "call"}
+    out = {}
+    for a in sorted(missing):
+        sg = sigs[a]
+        cands = []
+        for p in new:
+            f = fns[p]
+            if p in out or f.get("inputs", []) != sg["inputs"] or f.get("output", "") != sg["output"] or f.get("safety") != sg["safety"] or f.get("exported"):
+                continue
+            if _split(p)[0] != sg["container"] and _split(p)[1] != sg["name"]:
+                continue
+            want, got = set(sg["callees"]), callees.get(p, set())
+            cands.append((len(want & got) / float(len(want | got) or 1), p))
+        b = _unique_best(cands) if len(cands) != 1 else cands[0][1]
+        if b:
+            out[b] = a
+    return out
+
+
+def resolve_renames(txt):
+    """A private function, type or constant of the reference tree that was merely renamed or moved to
+    another module keeps its role.  An item of the reference tree that is missing is matched with the
+    one new item of the same kind that has its shape - functions: parameter and return types and
+    safety; types: kind and field types; constants: type and value - and sits in the same container
+    or carries the same name (ties between functions are broken by the overlap of what they call).
+    The new name is then replaced by the reference name throughout the facts, so that every rule
+    keeps talking about the same thing.  -> (facts text, {new path: reference path})"""
+    sigs, anchor_names = _load_sigs()
+    done = {}
+    if not sigs:
+        return txt, done
+    import re as _re
+    for _ in range(6):
+        j = json.loads(txt)
+        m = _adt_aliases(j, sigs) or _const_aliases(j, sigs) or _fn_aliases(j, sigs, anchor_names)
+        m = {k: v for k, v in m.items() if k not in done}
+        if not m:
+            break
+        for new, old in sorted(m.items(), key=lambda kv: -len(kv[0])):
+            txt = _re.sub(r"(?<![A-Za-z0-9_:])" + _re.escape(new) + r"(?![A-Za-z0-9_])", lambda mm: old, txt)
+        done.update(m)
+    return txt, done
+
+
 class Facts:
-    def __init__(self, path):
+    def __init__(self, path, resolve_renames=True):
         with open(path) as f:
             txt = f.read()
         # An inherent impl written in another module than its type (`impl Repr { .. }` inside
@@ -387,6 +531,9 @@ class Facts:
         # compiler; the function it defines is the same `Repr::f`.  Name it by its type, so that
         # moving an impl block between modules does not rename anything.
         txt = _INHERENT_IMPL.sub(lambda m: m.group(0) if m.group(0).split("::", 1)[0] in _FOREIGN_ROOTS else m.group(1) + "::", txt)
+        self.renamed = {}
+        if resolve_renames and _needs_resolution(txt):
+            txt, self.renamed = globals()["resolve_renames"](txt)
         self.j = json.loads(txt)
         self.path = path
         self.config = self.j["config"]
